@@ -135,7 +135,7 @@ theorem plain_chain : ∀ (ops : List SendOp) (s s' r : Stream) (sent : List Wir
 /-! ### A keyed receiver accepts what the keyed sender emits (honest wire) -/
 
 theorem recv_honest {r : Stream} {k iv dg c0 m} {it : Item}
-    (hr : RecvInv r k iv c0 m) (hdg : c0 + m = 0 → (r.dig.fr, r.dig.fs) = dg)
+    (hr : RecvInv r k iv c0 m) (hdg : c0 + m = 0 → (r.dig.fr, r.dig.fs) = dg ∧ iv ≠ r.encIV)
     (hlen : it.len = it.plain.length + tagLen + (if c0 + m = 0 then ivLen else 0))
     (hmax : it.len ≤ maxMessageSize) (hfl : it.flag ≤ maxEndFlag) :
     ∃ r', r.recvFrameWithEnd (frameAt k iv dg (c0 + m) it) = .ok (r', it.plain, it.flag) ∧
@@ -156,7 +156,7 @@ theorem recv_honest {r : Stream} {k iv dg c0 m} {it : Item}
       simp only [hz, if_true, Body.wireLen, sealedAt, hc', hfin]
       simp only [show ¬ (ivLen + (it.plain.length + tagLen) = 0) by unfold ivLen; omega, if_false,
         show ¬ (True ∧ ivLen + (it.plain.length + tagLen) < ivLen) by omega]
-      simp [hd]
+      simp [hd.1, hd.2]
     · have hc' : r.decCtr ≠ 0 := by omega
       have hfin : r.finRecvAAD = true := by rw [hf]; exact decide_eq_true hz
       have hdi := hdiv hz
@@ -168,7 +168,7 @@ theorem recv_honest {r : Stream} {k iv dg c0 m} {it : Item}
   exact ⟨_, rfl, afterOpen_recvInv hr _⟩
 
 theorem keyed_chain {k iv dg c0} : ∀ (items : List Item) (r : Stream) (m : Nat),
-    RecvInv r k iv c0 m → (c0 + m = 0 → (r.dig.fr, r.dig.fs) = dg) →
+    RecvInv r k iv c0 m → (c0 + m = 0 → (r.dig.fr, r.dig.fs) = dg ∧ iv ≠ r.encIV) →
     (∀ j it, items[j]? = some it →
         it.len = it.plain.length + tagLen + (if c0 + m + j = 0 then ivLen else 0) ∧
         it.len ≤ maxMessageSize ∧ it.flag ≤ 1) →
